@@ -81,6 +81,50 @@ pub fn eval(ctx: &mut Ctx, c: &EncCase, tag: &str) {
     ctx.sample(|| c.describe().set("compacted", crate::json::J::Bool(is_macro)));
 }
 
+/// the same rules observed through the string entry points: `encode_str` of an (ASCII) message, `decode_str` back
+pub fn eval_str(ctx: &mut Ctx, c: &EncCase, tag: &str) {
+    let Ok(s) = std::str::from_utf8(&c.input) else { return };
+    ctx.eval();
+    let case = || c.to_case("macro_str");
+    crate::ctx::trace_case(|| case().flat());
+    let Some(b) = builder(c) else { return ctx.harness_error("bad list spec") };
+    let data = match guard(|| b.encode_str(s).map(|dm| dm.data_codewords().to_vec())) {
+        Ok(Ok(d)) => d,
+        Ok(Err(_)) => return ctx.count("encode.refused"),
+        Err(_) => return ctx.count("encode.panic(C11)"),
+    };
+    let x = &c.input;
+    let (hdr05, hdr06) = (x.starts_with(MACRO05), x.starts_with(MACRO06));
+    let envelope = (hdr05 || hdr06) && x.len() >= 9 && x.ends_with(TRAIL);
+    let should = c.macros && !c.fnc1 && envelope;
+    let first = data.first().copied();
+    if should != matches!(first, Some(236) | Some(237)) {
+        return ctx.violation("compaction_iff", &case(), format!("encode_str: macros={} fnc1={} envelope={} => compaction expected {}, first codeword {:?}", c.macros, c.fnc1, envelope, should, first));
+    }
+    if should && first != Some(if hdr05 { 236 } else { 237 }) {
+        return ctx.violation("wrong_macro_codeword", &case(), format!("encode_str: first codeword {:?}", first));
+    }
+    if c.fnc1 && first != Some(232) {
+        return ctx.violation("fnc1_not_first", &case(), format!("encode_str: first codeword {:?}", first));
+    }
+    match guard(|| datamatrix::data::decode_str(&data)) {
+        Err(p) => return ctx.violation("decode_panic", &case(), p),
+        Ok(Err(err)) => return ctx.violation("decode_error", &case(), format!("decode_str: {:?}", err)),
+        Ok(Ok(out)) => {
+            if out != s {
+                return ctx.violation("decoded_bytes_differ", &case(), format!("decode_str returns {} bytes, input {}", out.len(), s.len()));
+            }
+        }
+    }
+    ctx.count(&format!("workload.{}", tag));
+    if should {
+        ctx.count("str.compacted");
+    }
+    if hdr05 || hdr06 || x.ends_with(TRAIL) || c.fnc1 {
+        ctx.nontrivial(crate::rng::hash64(case().flat().as_bytes()));
+    }
+}
+
 pub fn run(ctx: &mut Ctx) {
     // exhaustive: all strings of length 0..=L over pieces {head05, head06, trail, RS, EOT, 'A', '1'} glued as tokens
     let toks: [&[u8]; 8] = [MACRO05, MACRO06, TRAIL, b"\x1e", b"\x04", b"A", b"1", b"[)>"];
@@ -105,7 +149,11 @@ pub fn run(ctx: &mut Ctx) {
         let input: Vec<u8> = seq.iter().flat_map(|t| toks[*t].iter().copied()).collect();
         for (macros, fnc1) in [(true, false), (false, false), (true, true), (false, true)] {
             if ctx.mine(item) {
-                eval(ctx, &EncCase { input: input.clone(), list: "default".into(), mask: 63, macros, fnc1, eci: None, order: 0, prelude: 0, skipdef: false, entry: 0 }, "token_sequences_exhaustive");
+                let c = EncCase { input: input.clone(), list: "default".into(), mask: 63, macros, fnc1, eci: None, order: 0, prelude: 0, skipdef: false, entry: 0 };
+                eval(ctx, &c, "token_sequences_exhaustive");
+                if idx % 3 == 0 {
+                    eval_str(ctx, &c, "token_sequences_through_string_api");
+                }
             }
             item += 1;
         }
@@ -187,10 +235,23 @@ pub fn run(ctx: &mut Ctx) {
         let input = if i % 4 == 3 { inputs::gen_input(&mut ctx.rng, 200) } else { inputs::macro_material(&mut ctx.rng, 60) };
         let (list, mask) = if ctx.rng.chance(1, 2) { ("default".to_string(), 63) } else { (inputs::gen_list_spec(&mut ctx.rng), inputs::gen_mask(&mut ctx.rng)) };
         let c = EncCase { input, list, mask, macros: !ctx.rng.chance(1, 4), fnc1: ctx.rng.chance(1, 5), eci: None, order: ctx.rng.below(24) as u8, prelude: if ctx.rng.chance(1, 2) { 0 } else { ctx.rng.below(16) as u8 }, skipdef: ctx.rng.chance(1, 3), entry: 0 };
+        let mut c = c;
+        if ctx.rng.chance(1, 3) {
+            c.entry = ctx.rng.range(1, 2) as u8;
+            c.entry = c.effective_entry();
+        }
         eval(ctx, &c, "generated");
+        if c.input.is_ascii() && ctx.rng.chance(1, 3) {
+            let mut cs = c.clone();
+            cs.entry = 0;
+            eval_str(ctx, &cs, "generated_through_string_api");
+        }
     }
 }
 
 pub fn replay(ctx: &mut Ctx, case: &Case) {
+    if case.kind == "macro_str" {
+        return eval_str(ctx, &EncCase::from_case(case), "replay");
+    }
     eval(ctx, &EncCase::from_case(case), "replay");
 }
